@@ -204,7 +204,7 @@ class Folder:
                 val.module = modname
             env[target.id] = val
         elif isinstance(target, (ast.Tuple, ast.List)):
-            if isinstance(val, (tuple, list)) and len(val) == len(target.elts):
+            if isinstance(val, (tuple, list, str)) and len(val) == len(target.elts):
                 for t, v in zip(target.elts, val):
                     self._bind(t, v, env, modname)
             else:
